@@ -471,8 +471,10 @@ class RetryExecutor(CanCustomizeBind, Executor):
         if delegate_future.cancelled():
             # nothing to do, retrying on cancel is not allowed
             self._log.debug("Delegate was cancelled: %s", delegate_future)
-            self._pop_job(found_job)
+            # Resolve the future before removing the job: a concurrent cancel()
+            # must either find the job or find the future already done.
             found_job.future._me_delegate_cancelled()
+            self._pop_job(found_job)
             return
 
         (should_retry, sleep_time) = eval_policy(found_job, self._log)
